@@ -19,7 +19,11 @@ WORDS = ["x", "y", "z", "w*", "*", "fo?", "a\\*b", "12"]
 def gen_schema(rng, depth=0, max_depth=3, in_nested=False):
     """{name: {"kind": text|keyword|nested|object, "children": schema, "sub": {name: kind}}}"""
     out = {}
-    for name in rng.sample(NAMES, rng.choice([1, 2, 3] if depth else [2, 3, 4])):
+    names = rng.sample(NAMES, rng.choice([1, 2, 3] if depth else [2, 3, 4]))
+    if rng.random() < 0.35:
+        # a sibling whose name textually extends another one (`author` / `authors`): prefix tests must respect the dots
+        names.append(rng.choice(names) + rng.choice(["s", "b", "_x", "1"]))
+    for name in names:
         k = rng.random()
         if depth < max_depth and k < 0.3:
             out[name] = {"kind": "nested", "children": gen_schema(rng, depth + 1, max_depth, True), "sub": {}}
